@@ -86,6 +86,9 @@ _pixman_implementation_lookup_composite (pixman_implementation_t  *toplevel,
     pixman_implementation_t *imp;
     cache_t *cache;
     int i;
+#ifdef PIXMAN_VERIF
+    int verif_hit = -1;
+#endif
 
     /* Check cache for fast paths */
     cache = PIXMAN_GET_THREAD_LOCAL (fast_path_cache);
@@ -110,6 +113,9 @@ _pixman_implementation_lookup_composite (pixman_implementation_t  *toplevel,
 	{
 	    *out_imp = cache->cache[i].imp;
 	    *out_func = cache->cache[i].fast_path.func;
+#ifdef PIXMAN_VERIF
+	    verif_hit = i;
+#endif
 
 	    goto update_cache;
 	}
@@ -162,6 +168,26 @@ _pixman_implementation_lookup_composite (pixman_implementation_t  *toplevel,
     return;
 
 update_cache:
+#ifdef PIXMAN_VERIF
+    if (_pixman_verif_sink)
+    {
+	pixman_verif_lookup_t ev;
+
+	ev.cache = cache;
+	ev.hit = verif_hit;
+	ev.toplevel = toplevel;
+	ev.imp = *out_imp;
+	ev.func = (const void *)*out_func;
+	ev.op = op;
+	ev.src_format = src_format;
+	ev.mask_format = mask_format;
+	ev.dest_format = dest_format;
+	ev.src_flags = src_flags;
+	ev.mask_flags = mask_flags;
+	ev.dest_flags = dest_flags;
+	PIXMAN_VERIF_EVENT ("Lookup", &ev);
+    }
+#endif
     if (i)
     {
 	while (i--)
